@@ -690,7 +690,13 @@ fn stress_with(seed: u64, big: bool) -> Vec<Fail> {
             if (is_del && obs == 0) || (!is_del && obs == ver) {
                 ok = true;
                 order_of_obs = Some(wi + 1);
-                break;
+                // versions of puts are unique, but "absent" can be explained by ANY delete among the
+                // candidates: for the never-backwards check take the latest one that explains it
+                // (choosing the earliest raised a false alarm: delete #17, put #18 seen by the first
+                // read, delete #19 in flight during the second)
+                if !is_del {
+                    break;
+                }
             }
         }
         if !ok {
